@@ -18,10 +18,16 @@ static void c10_rp_state(void) {
     VF_ASSUME(IN_n <= 4096);
 #endif
     c10_rp.num_elements = IN_n;
+#ifdef VF_SMALL_ELEMS
+    VF_ASSUME(IN_n <= 2);
+    c10_rp.elements = (RobustPathElement *)malloc(sizeof(RobustPathElement) * 2);   /* constant-size block for the bounded group */
+    VF_ASSUME(c10_rp.elements != NULL);
+#else
     c10_rp.elements = IN_n ? (RobustPathElement *)malloc(sizeof(RobustPathElement) * IN_n) : NULL;
     VF_ASSUME(IN_n == 0 || c10_rp.elements != NULL);
+#endif
 #ifndef VF_CBMC
-    if (IN_n) memset(c10_rp.elements, 0, sizeof(RobustPathElement) * IN_n);
+    if (c10_rp.elements) memset(c10_rp.elements, 0, sizeof(RobustPathElement) * (IN_n > 2 ? IN_n : 2));
 #endif
     VF_IN(double, IN_ex); VF_IN(double, IN_ey);
     if (GK < IN_n) { c10_rp.elements[GK].end_extensions.x = IN_ex; c10_rp.elements[GK].end_extensions.y = IN_ey; }
